@@ -36,7 +36,7 @@ Admissible(x) ==
 Weight(nt, useref, down, mf, merge, toff, mi, ti, s, inv, prop, pi, fi, ei) ==
   nt + 2 * (IF useref THEN 1 ELSE 0) + 3 * down + 5 * mf + 7 * (IF merge THEN 1 ELSE 0) + 11 * toff + 13 * mi + 17 * ti + 19 * s
   + 23 * (IF inv THEN 1 ELSE 0) + 29 * (IF prop THEN 1 ELSE 0) + 31 * pi + 37 * fi + 41 * ei
-Init == \E nt \in 1..2, useref \in BOOLEAN, down \in {0, 1, 2}, mf \in {0, 5}, merge \in BOOLEAN, toff \in {0, 2}, mode \in Modes,
+Init == \E nt \in 1..2, useref \in BOOLEAN, down \in {0, 1, 2}, mf \in {0, 5, 2001}, merge \in BOOLEAN, toff \in {0, 2}, mode \in Modes,
            tf \in {"none", "left", "right"}, s \in {1, 2}, inv \in BOOLEAN, prop \in BOOLEAN, plane \in {"none", "xy", "yz"},
            fmt \in {"tum", "euroc", "kitti"}, export \in {"tum", "kitti"} :
           LET x == Case(nt, useref, down, mf, merge, toff, mode, tf, s, inv, prop, plane, fmt, export) IN
